@@ -32,7 +32,8 @@ impl DateTime {
             // Any valid integer representation of one (e.g. "1", "+1" or "01") means true
             node.text().unwrap_or("0").trim().parse::<i64>() == Ok(1)
         } else {
-            return Ok(None);
+            // The flag is optional, a date time without it is not atomic clock referenced
+            false
         };
 
         Ok(Some(Self {
